@@ -212,6 +212,12 @@ class C04(Monitor):
                 idled = (aname(p) == "Idle" and aname(v) == "Idle" and v.vehicle_state.instance_id == p.vehicle_state.instance_id and v.vehicle_state.idle_duration > p.vehicle_state.idle_duration) or (
                     aname(p) == "ChargeQueueing" and aname(v) == "ChargeQueueing" and v.vehicle_state.instance_id == p.vehicle_state.instance_id and _can_use(env, s, mech, v.vehicle_state)
                 )
+                # ... and so does the step in which a vehicle falls back to Idle without having driven: its task was over when the
+                # step began (terminal conditions are detected at the start of the update), so it stood idle for the whole step
+                entered_idle = aname(v) == "Idle" and not moved and getattr(p.vehicle_state, "instance_id", None) != v.vehicle_state.instance_id
+                if entered_idle:
+                    ctx.count("c04_steps_falling_back_to_idle")
+                idled = idled or entered_idle
                 if idled and p.energy[et] > 1e-9 * cap and _idle_rate(mech) > 0:  # a residue below float resolution of the totals cannot show
                     ctx.count("c04_idle_steps")
                     if not v.energy_expended[et] > p.energy_expended[et]:
